@@ -28,7 +28,7 @@ var commonAssumptions = []string{
 var properties = map[string]Property{
 	"C04": {
 		Level:       "proof",
-		Rules:       []string{"R-EVAL-WRITE", "R-DOC-EXT", "R-SET-USERONLY", "R-ENGINE", "G-IMPORTS"},
+		Rules:       []string{"R-EVAL-WRITE", "R-DOC-EXT", "R-SET-USERONLY", "R-ENGINE", "N-ENTRY", "G-IMPORTS"},
 		Explanation: "Decided (whole property): no instruction the library can execute during evaluation writes memory reachable from the source document (or from a value a user function returned), except inside the Set closures it hands out and never calls. Obligations = effect instructions (Store, MapUpdate, append, copy, delete, clear, writing library calls) in every function reachable from the evaluation closure in the points-to engine's call graph; an obligation is discharged when the points-to set of its written cells contains no DOC/caller-data object. Also: every external callee that receives document memory is tabled read-only (R-DOC-EXT), accessor closures are unreachable from library entry points (R-SET-USERONLY), the engine's evaluation call graph agrees with VTA (R-ENGINE). Not decided: nothing of the statement; what is assumed is listed under assumptions.",
 		Assumptions: []string{
 			"Andersen-style inclusion analysis (context-insensitive, field-sensitive, type-filtered) over go/ssa is a sound over-approximation for type-safe Go without unsafe/reflect mutation",
@@ -38,13 +38,13 @@ var properties = map[string]Property{
 	},
 	"C05": {
 		Level:       "other",
-		Rules:       []string{"R-EVAL-WRITE", "R-RESULT-FRESH", "R-TREE-CLOSED", "R-GLOBALS", "O-POOL", "R-ENGINE", "G-IMPORTS"},
+		Rules:       []string{"R-EVAL-WRITE", "R-RESULT-FRESH", "R-TREE-CLOSED", "R-GLOBALS", "O-POOL", "R-ENGINE", "R-ERR-PURE", "G-IMPORTS"},
 		Explanation: "Decided (necessary core): evaluation has no memory between calls. Every effect instruction reachable from the evaluation closure writes only objects allocated during that evaluation or pooled scratch objects (never the parsed tree, a global, Config memory); the returned slice is an allocation of the call that no instruction stores into longer-lived memory; the returned function reaches no parser-owned, Config or pooled memory and no persistent parser state reaches an earlier tree; every package-level variable is a sync primitive, the lock-protected parser or never written after init; pooled objects are released on every path, never used after a direct release, never stored outside local variables, and result sinks are truncated before Put. Not decided: that two calls on equal documents compute equal results and equality with a fresh Retrieve (behavioural).",
 		Assumptions: []string{"sentinel exemption: the two package-level one-element lists may reach list parameters of validators/comparators/logical operators; premises (assigned only in init, never sliced/appended) are re-verified each run; that no comparator runs with a sentinel as left list on a feasible path is argued in DESIGN.md §3.A, not checked"},
 	},
 	"C06": {
 		Level:       "other",
-		Rules:       []string{"R-LOCK", "R-GLOBALS", "R-EVAL-WRITE", "R-TREE-CLOSED", "O-POOL", "R-ENGINE", "G-IMPORTS"},
+		Rules:       []string{"R-LOCK", "R-GLOBALS", "R-EVAL-WRITE", "R-TREE-CLOSED", "O-POOL", "R-ENGINE", "R-ERR-PURE", "G-IMPORTS"},
 		Explanation: "Decided (necessary core; an effect/lockset argument, not a schedule exploration): the parser mutex is locked exactly once, in Parse's entry block, the deferred closure that unlocks it is registered immediately afterwards, Unlock dominates every return of that closure and nothing that can panic precedes it; every function that can hold parser-owned memory is reachable from user-callable entry points only through Parse; every other package-level variable is a sync primitive or never written after init; evaluation writes no memory shared between calls; pooled objects are private between acquire and release. Not decided: interleavings as such; races inside user functions or on documents the caller mutates.",
 		Assumptions: []string{"sync.Mutex and sync.Pool are correct; a sync.Pool object obtained by Get is private until Put"},
 	},
@@ -55,13 +55,13 @@ var properties = map[string]Property{
 	},
 	"C01": {
 		Level: "other",
-		Rules: []string{"N-FORWARD", "N-PRESENCE", "N-KEYFLOW", "N-WALK", "N-VGSUM", "N-HEAD", "N-FUNCALL", "B-CHAIN", "O-SEQ", "O-LIFO", "O-MAPRANGE", "O-KEYSOURCE", "I-EXACT", "I-RANGE", "V-SELECT", "V-BOOL", "V-INPUT-PURE", "L-CLASS", "P-POST-NONEMPTY", "R-ITER-STABLE", "G-IMPORTS"},
+		Rules: []string{"N-FORWARD", "N-PRESENCE", "N-KEYFLOW", "N-WALK", "N-VGSUM", "N-HEAD", "N-FUNCALL", "B-CHAIN", "O-SEQ", "O-LIFO", "O-MAPRANGE", "O-KEYSOURCE", "I-EXACT", "I-RANGE", "V-SELECT", "V-BOOL", "V-INPUT-PURE", "L-CLASS", "P-POST-NONEMPTY", "R-ITER-STABLE", "N-ENTRY", "G-IMPORTS"},
 		Explanation: "Decided: structural NECESSARY conditions of the step-by-step definition, one group per clause of the statement — name: the stored member name reaches the lookup unchanged and presence is decided by comma-ok lookups, so a null member is a member (N-KEYFLOW, N-PRESENCE); every step hands the next step the same root, the caller's sink and exactly the child it selected, and the chain builder links every step behind the previous one, member nodes of a multi-name selector included (N-FORWARD, B-CHAIN, N-WALK); wildcard / multi-name / union loops are complete, in written resp. sorted-key order, over a list nobody overwrites meanwhile (O-SEQ, O-MAPRANGE, O-KEYSOURCE, R-ITER-STABLE); recursive descent is pre-order (last-in-first-out pop, children pushed in reverse, parent before children) and skips no container (O-LIFO); index and slice subscripts produce exactly Python's indices on every zone partition (I-EXACT, I-RANGE); the filter hands member i on exactly when its verdict is true, the verdict lists have length 1 or the member count, and the logical nodes compute AND / OR / NOT member by member over operands that see the same members (V-SELECT, L-CLASS, V-BOOL, V-INPUT-PURE); function nodes are called once with the selected value(s), and the argument chain's value-group flag is summarised before it is consulted (N-FUNCALL, N-VGSUM); a step that reports success has emitted at least one value and a step that emitted nothing reports an error (P-POST-NONEMPTY). NOT decided — and not decidable by this family of technique: that the returned sequence EQUALS the one the definition gives for every path and document; that needs an executable reference and comparison of values. A violation of one of these conditions breaks C01; their conjunction does not imply it (e.g. what a comparison considers equal, the text of error results, anything only a particular document shows).",
 		Assumptions: []string{"the conditions listed are necessary, not sufficient, for C01; see the per-clause properties C07–C11, C14 for what each rule covers"},
 	},
 	"C02": {
 		Level:       "other",
-		Rules:       []string{"P-RECOVER", "P-PANICTYPE", "P-ERRCHECK", "P-MEMO", "P-SCT", "ST-UNIFORM", "ST-BALANCE", "ST-TYPES", "ST-FRAMES", "TV-WF", "TV-CATCHALL", "TV-ENGINE", "R-LOCK", "R-RESET", "N-WALK", "G-IMPORTS"},
+		Rules:       []string{"P-RECOVER", "P-PANICTYPE", "P-ERRCHECK", "P-MEMO", "P-SCT", "ST-UNIFORM", "ST-BALANCE", "ST-TYPES", "ST-FRAMES", "TV-WF", "TV-CATCHALL", "TV-ENGINE", "R-LOCK", "R-RESET", "N-WALK", "N-ENTRY", "G-IMPORTS"},
 		Explanation: "Decided (large structural part): (i) Parse registers, directly after taking the lock, a deferred closure that calls recover() unconditionally, stores a recovered error into the named error result and writes no other result; every explicit panic in parser code carries one of the four documented types; conversion errors (strconv, regexp, json) panic with a documented type or are propagated; (ii) the value stack is typed by abstract interpretation of the grammar that the generated matcher actually runs (reconstructed by the decompiler, so the result does not depend on the published grammar): every action has one stack effect on all non-panicking paths (implicit defaults of exhaustive type switches are discharged from the producer types of the switched slot), every rule has one net effect, no derivation pops an empty stack or fails an unchecked assertion, frame save/load are paired and never index an empty list, and the start rule leaves the stack empty; the stack is empty at the start of every Parse (R-RESET); (iii) the grammar is well-formed (no left recursion / nullable repetition), the start rule is total, the parser is initialised without options (memoisation on), and hand-written recursion descends on the tree. Not decided: bounded time quantitatively, out-of-memory / stack depth for pathological nesting, bounds checks inside the generated matcher (rely on the end-symbol sentinel appended by reset: compared as boilerplate), the few index expressions in hand-written helpers (varBlockSet[1], literal[0], text[0:1]) which are listed as assumed.",
 		Assumptions: []string{"assumed obligations: varBlockSet[1] in the regexp callback (the pattern has one group), literal[0] (literals are built as one-element slices), text[0:1] in the negation action (the capture is never empty)"},
 	},
@@ -72,7 +72,7 @@ var properties = map[string]Property{
 	},
 	"C17": {
 		Level:       "translation_validation",
-		Rules:       []string{"TV-RULES", "TV-ACTIONS", "TV-WF", "TV-CATCHALL", "TV-ENGINE", "P-RESTRICT", "P-ERRCHECK", "P-PANICTYPE", "U-INDEX", "U-RUNELEN", "N-GETSET", "N-VGSUM", "G-IMPORTS"},
+		Rules:       []string{"TV-RULES", "TV-ACTIONS", "TV-WF", "TV-CATCHALL", "TV-ENGINE", "P-RESTRICT", "P-ERRCHECK", "P-PANICTYPE", "U-INDEX", "U-RUNELEN", "N-GETSET", "N-VGSUM", "N-ENTRY", "G-IMPORTS"},
 		Explanation: "Translation validation of the generated packrat parser against the published grammar: each of the grammar's rules is decompiled from the goto-template code of its rule function or inlined copies and shown equivalent after normalisation (literals to rune sequences, classes to interval sets, e+ to e e*, `-switch` choices under FIRST-set side conditions); every action body in Execute equals the grammar's action as Go syntax; the grammar-independent engine is the generator's boilerplate; the start rule is total and its catch-all captures the rest after the longest path prefix. Plus: every documented semantic restriction is enforced where the construct is built; the reported position is a character index taken from the token tree and is never used to slice a byte string. Not decided: that strconv / regexp accept what the prose calls 'valid for Go' (they are the definition).",
 	},
 	"C18": {
@@ -82,13 +82,13 @@ var properties = map[string]Property{
 	},
 	"C03": {
 		Level:       "other",
-		Rules:       []string{"P-POST-NONEMPTY", "P-RTERR", "P-PANICTYPE", "P-ASSERT", "P-NILGUARD", "P-IFACE-EQ", "V-VALIDATED", "V-ACCEPT", "V-TWO-CURRENT", "V-BOOL", "L-CLASS", "P-SCT", "O-SEQ", "I-OVERFLOW", "I-RANGE", "I-BUF", "I-PROGRESS", "R-ITER-STABLE", "G-IMPORTS"},
+		Rules:       []string{"P-POST-NONEMPTY", "P-RTERR", "P-PANICTYPE", "P-ASSERT", "P-NILGUARD", "P-IFACE-EQ", "V-VALIDATED", "V-ACCEPT", "V-TWO-CURRENT", "V-BOOL", "L-CLASS", "P-SCT", "O-SEQ", "I-OVERFLOW", "I-RANGE", "I-BUF", "I-PROGRESS", "R-ITER-STABLE", "N-ENTRY", "P-NILRET", "G-IMPORTS"},
 		Explanation: "Decided (structural part): (i) every return of a retrieve-family function is a fresh error value, the result of a step on the same sink, a variable proven non-nil, or nil on a path where the sink is known non-empty (must-analysis over appends and len(result)>0 edges), so success is never empty and every result[0] read follows a successful step; (ii) only the three documented runtime error types are converted to the runtime-error interface, each implements error, and ErrorFunctionFailed is built only under a non-nil error of a user-function call; (iii) no explicit panic in evaluation code, reflect.TypeOf(x) dereferenced only under x != nil, every unchecked assertion is a pool element, a runtime error asserted to error, or a validated comparator operand, and every interface comparison has a nil / comparable-concrete operand or validated operands; (iv) recursion cycles descend on the tree and loops are counted/range/worklist loops. Also decided: the logical nodes index a verdict list member by member only on paths where it is known not to be a one-element list and read X[0] only under len(X)==1 (V-BOOL); the right operand is read out of its list after validation succeeded (V-VALIDATED); a comparison between two per-member operands is rejected at parse time for every comparator (V-TWO-CURRENT); no loop walks a list that steps called inside it can reach and overwrite (R-ITER-STABLE). every verdict list a query returns has length 1 or the member count (L-CLASS, inductive over the query family), and the filter reads result[0] only where the length differs from the member count. Not decided: time bounds beyond termination. Also decided (v): subscript arithmetic cannot overflow, produced indices lie in [0, length-1], buffer writes are in range and subscript loops terminate (zone abstract interpretation, see C11).",
 		Assumptions: []string{"the sorted key list of an object has as many entries as the object (shown by O-MAPRANGE under C07: resliced to len(map), one key stored per iteration)"},
 	},
 	"C08": {
 		Level:       "other",
-		Rules:       []string{"N-FORWARD", "N-DEEPEST", "O-SEQ", "O-LIFO", "B-CHAIN", "N-PRESENCE", "N-WALK", "R-ITER-STABLE", "N-GETSET", "G-IMPORTS"},
+		Rules:       []string{"N-FORWARD", "N-DEEPEST", "O-SEQ", "O-LIFO", "B-CHAIN", "N-PRESENCE", "N-WALK", "R-ITER-STABLE", "N-GETSET", "N-ENTRY", "G-IMPORTS"},
 		Explanation: "Decided (structural part): every call of a step (retrieve on the next node, or one of the retrieve-family helpers) passes the caller's own root and the caller's own sink (or a private pooled sink), the emitters hand the next step exactly the value they would emit themselves (container[key] of their parameters); fan-out loops are complete and leave only through their loop condition, branch errors are only accumulated through the deepest-error helper; the chain builder re-assigns its link target from the current step on every iteration. Also decided: every per-node setting the parser applies to a node that may be a multi-name selector — next link, texts, accessor flag — also reaches the member nodes the selector evaluates into the same result list, with the same value and under no flag evaluation does not use for that edge (N-WALK; this is where the `$..['a','b'].c` defect was found, now fixed); presence of a member is decided by comma-ok lookups, so a null member is a member (N-PRESENCE); no step walks a list that the following steps can overwrite (R-ITER-STABLE). Not decided: the relational equality of the three retrievals as such.",
 	},
 	"C09": {
@@ -119,22 +119,22 @@ var properties = map[string]Property{
 	},
 	"C14": {
 		Level:       "other",
-		Rules:       []string{"N-FUNCALL", "N-FORWARD", "P-RTERR", "O-POOL", "B-CHAIN", "P-RESTRICT", "N-WALK", "N-GETSET", "N-HEAD", "N-VGSUM", "G-IMPORTS"},
+		Rules:       []string{"N-FUNCALL", "N-FORWARD", "P-RTERR", "O-POOL", "B-CHAIN", "P-RESTRICT", "N-WALK", "N-GETSET", "N-HEAD", "N-VGSUM", "V-PARAM-ALWAYS", "G-IMPORTS"},
 		Explanation: "Decided (structural part): a function node calls its user function at exactly one site, outside loops; the filter function receives the node's current value; the aggregate receives the list of its private pooled sink, or element 0 as an array only under the parameter's value-group test being false and a successful checked assertion; the function's result is what is forwarded; ErrorFunctionFailed is built only when that call returned an error; the chain builder keeps its link target on the step just processed (so a step after an aggregate is linked behind the aggregate). Not decided: that the value-group flag is correct for the chain (the live `$.a.*.f()` defect), . Also decided: function names are looked up in the filter table first, then the aggregate table, else ErrorFunctionNotFound.",
 	},
 	"C15": {
 		Level:       "other",
-		Rules:       []string{"N-KIND", "P-NILGUARD", "P-RTERR", "N-DEEPEST", "N-WALK", "N-GETSET", "G-IMPORTS"},
+		Rules:       []string{"N-KIND", "P-NILGUARD", "P-RTERR", "N-DEEPEST", "N-WALK", "N-GETSET", "R-ERR-PURE", "G-IMPORTS"},
 		Explanation: "Decided (structural part): every type-mismatch error is built under failed type tests of the node's current value, its expected-kind text is in one-to-one correspondence with the set of container kinds the node navigates, its found text is a constant for nil and reflect.TypeOf(current).String() of that same value under a nil guard, and it references the raising node's own descriptor; inside fan-out loops the surviving error is chosen only by the deepest-error helper. Not decided: which of several branch errors is reported (depends on text lengths / traversal order).",
 	},
 	"C20": {
 		Level:       "other",
-		Rules:       []string{"P-SENTINEL", "P-IFACE-EQ", "P-ASSERT", "P-NILGUARD", "N-KIND", "V-ACCEPT", "V-VALIDATED", "G-IMPORTS"},
+		Rules:       []string{"P-SENTINEL", "P-IFACE-EQ", "P-ASSERT", "P-NILGUARD", "N-KIND", "V-ACCEPT", "V-VALIDATED", "N-ENTRY", "G-IMPORTS"},
 		Explanation: "Decided (large structural part): the absence marker has a package-private named comparable type; every interface ==/!= reachable during evaluation has a nil / comparable-concrete operand or operands validated to a JSON scalar type; every unchecked type assertion is justified; navigation only type-tests for the two JSON container types and reports other values by reflect type under a nil guard; validators blank every foreign type. Not decided: reflect.DeepEqual's behaviour on exotic values, what user functions do with opaque values.",
 	},
 	"C19": {
 		Level:       "other",
-		Rules:       []string{"R-RESET", "R-PEGRESET", "R-CONFIG", "R-TREE-CLOSED", "R-LOCK", "R-GLOBALS", "R-ENGINE", "G-IMPORTS"},
+		Rules:       []string{"R-RESET", "R-PEGRESET", "R-CONFIG", "R-TREE-CLOSED", "R-LOCK", "R-GLOBALS", "R-ENGINE", "N-ENTRY", "G-IMPORTS"},
 		Explanation: "Decided (necessary core): every field of the global parser's action state that any Parse-phase function writes is zeroed by the deferred closure on every exit of Parse (whole-struct store of the zero value, or field-complete), also on panic; every matcher variable captured by rule closures and written during matching is assigned by the generated reset closure on every path (token tree: overwritten from index 0 and trimmed on success); pointers to the caller's Config are stored only into that action state; the returned function reaches no Config maps and no parser-owned memory, and persistent parser memory reaches no tree; no package-level variable other than the lock-protected parser is written after init (so no cache keyed by path can exist). Not decided: equality of outcomes across histories as such.",
 	},
 }
